@@ -365,7 +365,7 @@ def run_cases(exe, cases, chunk=40, timeout=300, args=()):
     def eff_timeout(n):
         # chunks that completed tell how long a chunk takes on this machine right now: wait 20x that (at least 45 s), never more than `timeout`
         d = state["durations"]
-        t = timeout
+        t = min(timeout, 150.0)
         if len(d) >= 3:
             t = min(timeout, max(45.0, 20.0 * max(d)))
         return max(CASE_TIMEOUT, t * max(1, n) / max(1, chunk)) if n < chunk else t
